@@ -189,13 +189,16 @@ theorem elem_callCmd (env : Env) (pruning : Int) (sv : Services) (host : Val) (n
         dsimp only
         cases allStr ys with
         | none => exact h
-        | some ss => exact elem_regLoop env (host, port) now ⟨hh, hx port (by simp)⟩ ss sv h
+        | some ss =>
+          dsimp only
+          rw [if_pos (hashable_true _)]
+          exact elem_regLoop env (host, port) now ⟨hh, hx port (by simp)⟩ ss sv h
   | unregister =>
     match xs with
     | [] => exact h
     | _ :: _ :: _ => exact h
     | [port] =>
-      simp only [callCmd, cmdUnregister, unregFinish]
+      simp only [callCmd, cmdUnregister, unregFinish, hashable_true, if_true]
       have := elem_unregLoop (host, port) (sv.map Prod.fst) sv h
       cases (unregLoop (host, port) (sv.map Prod.fst) sv).err <;> exact this
 
@@ -360,6 +363,8 @@ theorem bounded_callCmd (env : Env) (pruning : Int) (sv : Services) (host : Val)
         cases allStr ys with
         | none => exact bounded_succ k sv h
         | some ss =>
+          dsimp only
+          rw [if_pos (hashable_true _)]
           have := boundedOr_regLoop env k (host, port) now ss sv (fun e he => Or.inl (h e he))
           intro e he
           rcases this e he with hle | ⟨hle, _⟩ <;> omega
@@ -368,7 +373,7 @@ theorem bounded_callCmd (env : Env) (pruning : Int) (sv : Services) (host : Val)
     | [] => exact bounded_succ k sv h
     | _ :: _ :: _ => exact bounded_succ k sv h
     | [port] =>
-      simp only [callCmd, cmdUnregister, unregFinish]
+      simp only [callCmd, cmdUnregister, unregFinish, hashable_true, if_true]
       have := bounded_succ k _ (bounded_unregLoop k (host, port) (sv.map Prod.fst) sv h)
       cases (unregLoop (host, port) (sv.map Prod.fst) sv).err <;> exact this
 
